@@ -17,3 +17,48 @@ def mechanism_in_kinds(w, p):
     return (w.get("mechanism") is not None
             and w.get("mechanism") == p.get("mechanism")
             and w.get("kind") in p.get("kinds", []))
+
+
+import re as _re
+
+_WIDX = _re.compile(r"^\+\s*integer :: widx\d+(_\d+)*\s*$")
+_ACCESS = _re.compile(r"^[+-]\s*(public|private)\s*::\s*(.*)$")
+
+
+def _changed(diff_text):
+    return [l for l in diff_text.splitlines()
+            if l[:1] in "+-" and l[:3] not in ("+++", "---")]
+
+
+def c03_where_fallback_symbol_leak(w, p):
+    """Second write differs from the first ONLY by additional declarations of
+    WHERE loop variables (integer :: widxN[_M]) and the source contains a
+    WHERE construct: the WHERE handler created the loop variable and then
+    fell back to a CodeBlock, leaving the symbol behind; the next pass
+    creates one more."""
+    if w.get("kind") != "second_write_differs":
+        return False
+    if not w.get("source_has_where"):
+        return False
+    ch = _changed(w.get("diff", ""))
+    return bool(ch) and all(_WIDX.match(l) for l in ch)
+
+
+def c03_access_stmt_reordered(w, p):
+    """Only the order of names inside public::/private:: statements differs
+    (same set of names)."""
+    if w.get("kind") != "second_write_differs":
+        return False
+    ch = _changed(w.get("diff", ""))
+    if not ch:
+        return False
+    minus, plus = {}, {}
+    for l in ch:
+        m = _ACCESS.match(l)
+        if not m:
+            return False
+        names = frozenset(n.strip().lower() for n in m.group(2).split(","))
+        (minus if l[0] == "-" else plus).setdefault(m.group(1), []).append(
+            names)
+    return {k: sorted(map(sorted, v)) for k, v in minus.items()} == \
+        {k: sorted(map(sorted, v)) for k, v in plus.items()}
